@@ -95,7 +95,7 @@ def run(ck):
                    "outside the orthogonal matrices and invariant under three explicit rotations from both sides; that the average over all "
                    "orientations (Haar average of SO(3)) exists and has these properties is classical and not constructed in Lean"]
     extract(ck)
-    ck.prove(PROPS, extra_modules=["QV.Drive.C12"], also=["QV.Props.C12Weyl", "QV.Props.C12Average", "QV.Props.C12Pref", "QV.Props.C12Design", "QV.Props.C12DesignT8"])
+    ck.prove(PROPS, extra_modules=["QV.Drive.C12"], also=["QV.Props.C12Weyl", "QV.Props.C12Average", "QV.Props.C12Pref", "QV.Props.C12Design", "QV.Props.C12DesignT8", "QV.Props.C12Widths"])
     X3, Y3, Z3 = np.eye(3)
     quiet = lambda: contextlib.redirect_stdout(io.StringIO())
 
@@ -360,6 +360,72 @@ def run(ck):
                     "d": [list(map(float, x)) for x in d]}, got, want)
         lines.append("pref 1 1 1 %s %s" % (" ".join(frac(x) for v in lab.e for x in v), " ".join(frac(x) for v in d for x in v)))
         impl.append(({"four_tuple": trial}, got))
+
+    # ---- the width / dephasing blocks that diagonalize() builds for aggregates with two-exciton states vs the Lean model --------------
+    wlines, wimpl = [], []
+    for trial in range(ck.n(6, 40)):
+        n = 2 if trial % 3 == 0 else 3
+        lorentz = (trial % 2 == 1)
+        energies = [12000.0 + 150.0 * k + rng.randint(-60, 60) for k in range(n)]
+        dipoles = [rand_unit() for _ in range(n)]
+        vals = [rng.choice([60.0, 100.0, 150.0, 220.0]) if not lorentz else rng.choice([0.002, 0.0033, 0.01, 0.02]) for _ in range(n)]
+        coup = {(i, j): (0.0 if trial % 5 in (1, 4) else rng.choice([50.0, -120.0, 200.0])) for i in range(n) for j in range(i + 1, n)}
+        winp = {"sites": n, "energies": energies, "couplings": {"%d-%d" % k: v for k, v in coup.items()}, ("dephasing_rates" if lorentz else "widths_cm"): vals,
+                "shape": "Lorentzian" if lorentz else "Gaussian"}
+        try:
+            agg, _ = build(energies, dipoles, vals if not lorentz else [100.0] * n, coup, dephs=(vals if lorentz else None))
+            N1 = int(agg.Nb[0] + agg.Nb[1]); Ntot = int(agg.Ntot); M = Ntot - N1
+            SS = np.array(agg.SS, dtype=float)
+            S1 = SS[:N1, :N1]; S2 = SS[N1:, N1:]
+            if lorentz:
+                w = [0.0] + [float(m_.get_transition_dephasing((0, 1))) for m_ in agg.monomers]
+                Dr = np.array(agg.Dr, dtype=float)
+                one = np.diag(Dr)[:N1] ** 2; two = np.diag(Dr)[N1:]; crs = Dr[N1:, :N1]
+            else:
+                w = [0.0] + [float(m_.get_transition_width((0, 1))) for m_ in agg.monomers]
+                Wd = np.array(agg.Wd, dtype=float)
+                one = np.diag(Wd)[:N1] ** 2; two = np.diag(Wd)[N1:] ** 2; crs = Wd[N1:, :N1] ** 2
+            tw = [(int(agg.twoex_indx[N1 + K, 0]), int(agg.twoex_indx[N1 + K, 1])) for K in range(M)]
+        except Exception as ex:
+            ck.fail("raises:width-blocks", "building / diagonalising the aggregate raised %r" % (ex,), winp)
+            continue
+        ck.case(("width-blocks", trial), nontrivial=any(v != 0.0 for v in coup.values()), kind="width-blocks")
+        wlines.append("widths %d %d %s %s %s %s" % (N1, M, " ".join(frac(x) for x in S1.flatten()), " ".join(frac(x) for x in S2.flatten()),
+                                                 " ".join(frac(x) for x in w), " ".join("%d %d" % t_ for t_ in tw)))
+        wimpl.append((winp, np.concatenate([one, two, crs.flatten()])))
+        # the getter for every 1 -> 2 transition: g_ee + g_ff - 2 g_fe of those blocks, and for uncoupled molecules the value of the
+        # molecule that is being excited (theorems uncoupled_first / uncoupled_second)
+        getter = agg.get_transition_dephasing if lorentz else agg.get_transition_width
+        for K in range(M):
+            for a in range(1, N1):
+                try:
+                    gv = float(getter((N1 + K, a)))
+                except Exception as ex:
+                    ck.fail("raises:width-getter", "transition width / dephasing getter raised %r" % (ex,), dict(winp, transition=[N1 + K, a]))
+                    continue
+                want = one[a] + two[K] - 2.0 * crs[K, a]
+                if abs(gv - want) > 1e-12 * max(1e-300, abs(want), float(np.abs(one).max())):
+                    ck.fail("width-getter:%s" % winp["shape"], "width / dephasing of a 1->2 transition is not g_ee + g_ff - 2 g_fe of the blocks built by diagonalize",
+                            dict(winp, transition=[N1 + K, a]), gv, float(want))
+                if all(v == 0.0 for v in coup.values()) and a in tw[K]:
+                    other = tw[K][1] if a == tw[K][0] else tw[K][0]
+                    if abs(gv - w[other]) > 1e-9 * abs(w[other]):
+                        ck.fail("width-uncoupled:%s" % winp["shape"], "uncoupled molecules: the 1->2 transition that excites molecule %d does not carry that "
+                                "molecule's width / dephasing rate" % other, dict(winp, transition=[N1 + K, a]), gv, w[other])
+    wout = ck.drive(DRIVER, wlines) if wlines else []
+    if wout is not None:
+        for (winp, got), o in zip(wimpl, wout):
+            ck.traces += 1
+            try:
+                mv = np.array([float(parse_frac(x)) for x in o.replace("|", " ").split()])
+            except Exception:
+                ck.disagree("model output unreadable (widths)", winp, None, o[:100]); continue
+            if mv.shape != got.shape:
+                ck.disagree("width blocks: shape", winp, list(got.shape), list(mv.shape)); continue
+            dv = float(np.abs(mv - got).max()); scw = float(np.abs(mv).max()) or 1.0
+            ck.resid("width/dephasing blocks of diagonalize vs model (relative)", dv / scw)
+            if dv > 1e-10 * scw:
+                ck.disagree("width / dephasing blocks built by diagonalize differ from the model", winp, got.tolist(), mv.tolist())
 
     out = ck.drive(DRIVER, lines)
     if out is not None:
